@@ -5,6 +5,8 @@ CONSTANTS
   ExtraHandlers <- MCExtra
   Errors <- MCErrors
 INVARIANT OwnStatusAndVary
+INVARIANT OwnHeadersSent
+INVARIANT ToDictHonoured
 INVARIANT JsonByDefault
 INVARIANT KindConsistent
 INVARIANT ClientPreferenceHonoured
